@@ -86,6 +86,15 @@
 (*                   (NewScopeSchemaFromScope, signals built from a signal *)
 (*                   schema) is never linked itself: its first concurrent  *)
 (*                   use races on the field                                *)
+(*   ReuseInputContainer  a list schema given a slice that already has the  *)
+(*                   Go type of its result writes the unserialised items   *)
+(*                   back into the CALLER'S slice ([]any over one-of / any *)
+(*                   items, []map[string]any over objects with defaults),  *)
+(*                   also when a later item is refused                     *)
+(*   ReleaseOutsideLock  a step without signal handlers deletes its run's   *)
+(*                   entry from the run table after the handler returned,  *)
+(*                   OUTSIDE initializerMutex, while other runs read and   *)
+(*                   write the table under it                              *)
 (*   NoStepMutex     setupStepData without initializerMutex (step.go 201)  *)
 (*   EnumEarlyReturn enum compatibility returns at the first matching key  *)
 (*                   (enum.go 53-97 before its repair)                     *)
@@ -106,7 +115,7 @@
 EXTENDS Integers, Sequences, FiniteSets, TLC
 
 CONSTANTS G, MaxCalls, Kinds, Origins,
-          AliasDefaults, LazyUnsync, CollideEither, StripInPlace, StripRestore, DirtyScratch, SharedMarks, SharedInProgress, StaleMemo, SharedError, SortInPlace, ConvertInPlace, HideRestore, EarlyExitWalk, LastKeyDecides, MemoRootUnsync, NoStepMutex,
+          AliasDefaults, LazyUnsync, CollideEither, StripInPlace, StripRestore, DirtyScratch, SharedMarks, SharedInProgress, StaleMemo, SharedError, SortInPlace, ConvertInPlace, HideRestore, EarlyExitWalk, LastKeyDecides, MemoRootUnsync, ReuseInputContainer, ReleaseOutsideLock, NoStepMutex,
           EnumEarlyReturn, SubOverride
 
 VARIABLES inst,          \* [kind, origin, shared]
@@ -221,6 +230,10 @@ Ops(kind) ==
            {Call("unser", Arg("empty", Empty)), Call("unser", Arg("n1", Flat(1, Absent, Absent, Absent))),
             Call("unser", Arg("s_a1", Flat(Absent, Absent, 1, Absent))), Call("unser", Arg("bad", Empty)),
             Call("ser", Arg("full", Flat(1, Absent, 1, 1)))}
+      [] kind = "listarg" ->
+           \* a list (or map) schema given a container of exactly the Go type its result has, whose ELEMENTS change
+           \* under unserialisation (defaults, discriminator, canonical numbers); path n stands for such an element
+           {Call("unser", Arg(t, Flat(1, Absent, Absent, Absent))) : t \in {"same_type", "same_type_bad", "other_type"}}
       [] kind = "objreq" ->
            \* root{a: REQUIRED, b, c, d, e}: compatibility with an argument that leaves a out but supplies another
            \* valid field - as a map of values, as a map of property schemas, as another object schema of that ID
@@ -311,6 +324,8 @@ PureSet(i, op, arg) ==
               [] arg.tok = "typed_collide" -> {Res(FALSE, Empty, 0)}              \* duplicate key
               [] arg.tok = "single" -> {Res(TRUE, Empty, 1)}
               [] OTHER -> {Res(FALSE, Empty, 0)})
+      [] k = "listarg" ->
+           (IF arg.tok = "same_type_bad" THEN {Res(FALSE, Empty, 0)} ELSE {Res(TRUE, Empty, 0)})
       [] k = "objreq" ->
            (IF arg.tok \in {"data_full", "schema_full"} THEN {Res(TRUE, Empty, 0)} ELSE {Res(FALSE, Empty, 0)})
       [] k = "anylist" ->
@@ -357,7 +372,9 @@ InitialCaches(i) ==
 Init ==
     /\ \E k \in Kinds : \E o \in Origins :
           /\ (o = "global" => k \in UnitKinds)              \* package-level values: the unit definitions
-          /\ (k = "steps" => o \in {"fresh", "derived"})
+          \* "plain": a step built without signal handlers (NewCallableStep)
+          /\ (k = "steps" => o \in {"fresh", "derived", "plain"})
+          /\ (o = "plain" => k = "steps")
           \* "derived": a scope made of another scope's parts, never linked itself (objmap: NewScopeSchemaFromScope;
           \* steps: the data scopes of signals built from signal schemas)
           /\ (o = "derived" => k \in {"objmap", "steps"})
@@ -432,6 +449,7 @@ Acc(g) ==
       [] pc[g] = "N3"  -> Rd("cell.mid")
       [] pc[g] = "L1"  -> Rd("steps.table")
       [] pc[g] = "L2"  -> Wr("steps.table")
+      [] pc[g] = "L5"  -> Wr("steps.table")
       [] pc[g] = "B1"  -> Wr("link.s")
       [] OTHER -> NoAcc
 
@@ -476,13 +494,14 @@ Entry(c) ==
       [] K = "oneof" -> "O0"
       [] K = "objdep" /\ c.op \in {"valid", "ser"} /\ inst.origin # "rebuilt" -> "V1"   \* validateStruct
       [] K = "objdep" -> "V0"                                                          \* the map forms
-      [] K = "anylist" -> "A1"
+      [] K \in {"anylist", "listarg"} -> "A1"
       [] K = "steps" -> IF NoStepMutex THEN "L1" ELSE "L0"
       [] OTHER -> "C1"                              \* no shared state touched: compute and return
 
 Start(g) ==
     /\ At(g, "idle") /\ ncalls[g] < MaxCalls
     /\ \E c \in Ops(K) : \E ord \in Orders(K) :
+          /\ inst.origin = "plain" => c.op = "step"                  \* no signal handlers
           \* a shared input is one value: the calls in flight were given the same one
           /\ inst.shared => \A h \in InFlight(g) : cur[h].arg = c.arg
           /\ cur' = [cur EXCEPT ![g] = c]
@@ -861,7 +880,10 @@ DepMap(g) ==
 AnyConvert(g) ==
     /\ At(g, "A1")
     \* DEVIATION: the converted item is written back into the caller's slice - also when a later item is refused
-    /\ argmem' = IF ConvertInPlace /\ cur[g].arg.m["n"] # Absent THEN [argmem EXCEPT ![Cell(g)]["n"] = 2] ELSE argmem
+    /\ argmem' = IF cur[g].arg.m["n"] # Absent
+                    /\ ((K = "anylist" /\ ConvertInPlace)
+                        \/ (K = "listarg" /\ ReuseInputContainer /\ cur[g].arg.tok # "other_type"))
+                 THEN [argmem EXCEPT ![Cell(g)]["n"] = 2] ELSE argmem
     /\ SetLoc(g, "res", CHOOSE r \in PureSet(inst, cur[g].op, cur[g].arg) : TRUE)
     /\ Goto(g, "ret")
     /\ UNCHANGED <<inst, phase, link, defaultsCache, cell, unitCache, table, initCount, scratch, mutex, descr, cur, ncalls, hist>>
@@ -883,6 +905,12 @@ StepDone(g) ==
     /\ SetLoc(g, "res", Res(TRUE, Empty, initCount[RunOf(g)]))
     /\ Goto(g, IF NoStepMutex THEN "ret" ELSE "L4")
     /\ UNCHANGED <<table, initCount>> /\ StepFrame
+\* DEVIATION (steps without signal handlers): after the handler, the run's entry is deleted - no lock is held
+AfterUnlock == IF ReleaseOutsideLock /\ inst.origin = "plain" THEN "L5" ELSE "ret"
+StepRelease(g) ==
+    /\ At(g, "L5")
+    /\ table' = [table EXCEPT ![RunOf(g)] = "absent"]
+    /\ Goto(g, "ret") /\ UNCHANGED <<initCount, loc>> /\ StepFrame
 
 \* ------------------------------------------------------------------ next-state relation
 Step(g) ==
@@ -908,7 +936,7 @@ Step(g) ==
     \/ WalkRead(g) \/ WalkMark(g) \/ WalkClear(g) \/ WalkDone(g)
     \/ CmpBegin(g, "Q1", "pair.root", "Q2", "Q1x") \/ CmpRootUnderWay(g)
     \/ CmpBegin(g, "Q2", "pair.lim", "Q3", "Q4") \/ CmpLeaf(g) \/ CmpEnd(g)
-    \/ Acquire(g, "L0", "step", "L1") \/ Release(g, "L4", "step", "ret")
+    \/ Acquire(g, "L0", "step", "L1") \/ Release(g, "L4", "step", AfterUnlock) \/ StepRelease(g)
     \/ StepLookup(g) \/ StepInit(g) \/ StepDone(g)
 
 Next == Build \/ \E g \in G : Step(g)
